@@ -20,7 +20,7 @@ Proof. repeat split; reflexivity. Qed.
 (* the model's cache insertion mode is the code's (latest bytes replace earlier ones) *)
 Theorem C14_source_cache_mode_is_model_mode :
   map (fun r => let '(_, _, first_wins, _) := r in first_wins) src_serve = [0; 0; 0]
-  /\ src_request_guard = 1.
+  /\ src_request_guard = 2.
 Proof. split; reflexivity. Qed.
 
 (* ---- the property ------------------------------------------------------------------------ *)
